@@ -382,6 +382,46 @@ def run(ctx):
 
     drive.for_each_case(ctx, 'typevar', 40, body_typevar, gen=lambda c, r: Ty('int'))
 
+    # handlers passed to a call reach every depth on the way OUT as well - also where no type says what is there: an inferred list /
+    # tuple / set / mapping, typing.Any (top level, container element, tuple slot, dataclass field), ValueOrList elements
+    def body_output_reach(i, rng, ty, T):
+        from pane.types import ValueOrList
+        conv = StampConv('call')
+        custom = rng.choice(({int: conv}, lambda ty_, args, *, handlers: conv if ty_ is int else NotImplemented))
+        Holder = type(f"KO{next(_serial)}", (env.PaneBase,), {'__annotations__': {'x': t.Any, 'n': int, 'items': t.List[t.Any]}, 'n': 0,
+                                                               'items': env.pfield(default_factory=list), '__module__': __name__})
+        rows = [('inferred list', [10, 's'], None), ('List[Any]', [10], t.List[t.Any]), ('inferred tuple', (10, 'k'), None), ('inferred mapping', {'a': 10}, None),
+                ('Dict[str, Any]', {'a': 10}, t.Dict[str, t.Any]), ('nested inferred', [[10], {'k': [10]}], None), ('Any', 10, t.Any), ('Any holding a list', [10], t.Any),
+                ('dataclass with Any field', Holder(10, 5, [10]), Holder), ('dataclass, type inferred', Holder(10, 5, [10]), None),
+                ('ValueOrList[int] (list)', ValueOrList.from_list([10, 11]), ValueOrList[int]), ('ValueOrList[int] (value)', ValueOrList.from_val(10), ValueOrList[int]),
+                ('Tuple[Any, int]', (10, 10), t.Tuple[t.Any, int]), ('inferred set', {10}, None), ('Sequence[Any]', (10,), t.Sequence[t.Any]),
+                ('Optional[Any]', 10, t.Optional[t.Any])]
+        rng.shuffle(rows)
+
+        def int_leaves(d, out):
+            if isinstance(d, list) and len(d) == 3 and d[0] == 'out':
+                out.append(d[1])
+            elif isinstance(d, dict):
+                for v_ in d.values():
+                    int_leaves(v_, out)
+            elif isinstance(d, (list, tuple)):
+                for v_ in d:
+                    int_leaves(v_, out)
+            elif type(d) is int:
+                out.append('<plain int>')
+            return out
+        for name, v, TT in rows:
+            o = observe(env.into_data, v, TT, custom=custom) if TT is not None else observe(env.into_data, v, custom=custom)
+            ctx.count('output_reach_rows')
+            ctx.case(('output-reach', name, o.kind), nontrivial=True)
+            leaves_ = int_leaves(o.val, []) if o.kind == 'value' else None
+            if o.kind != 'value' or not leaves_ or any(l != 'call' for l in leaves_):
+                ctx.violation('precedence', 'output-reach', i, {'position': name, 'value': short(v, 120), 'type': short(TT, 80), 'into_data': o.brief(),
+                                                                'int_leaves_written_by': leaves_}, mech=f"into_data:call-handler-does-not-reach:{name.split(' (')[0]}")
+                return
+
+    drive.for_each_case(ctx, 'output-reach', 40, body_output_reach, gen=lambda c, r: Ty('int'))
+
     # the mapping form matches only the exact unparameterised type
     def body_exact(i, rng, ty, T):
         conv = StampConv('mapping')
